@@ -17,7 +17,8 @@ storage orders), tied to /repo by `harness/h_rbm.cpp` (ops `rbm_modes`, `rbm_deg
   "Orthonormalization": `n = coo.size()` counts unknowns, not nodes, so a translation column has squared norm
   `1/ndim`, and the projection `B_i -= dot[k]·B_k` (correct only for unit `B_k`) leaves the rotation columns
   non-orthogonal to the translations.  Harmless for C04 (only the span enters `P_tent·B_c = B`), reported as a
-  finding (notes/repro_rbm_not_orthonormal.cpp).
+  finding (notes/repro_rbm_not_orthonormal.cpp);
+* `rbm_depends_on_prior_content`: `B.resize` keeps the caller's old values, which leak into the result.
 -/
 namespace Amgcl.C04c
 open Amgcl Amgcl.RBM Finset
@@ -341,5 +342,14 @@ theorem rbm_not_orthonormal :
     (∑ j ∈ range 4, entry 2 4 false exB j 0 * entry 2 4 false exB j 2 = -1 / 10) ∧
     (∑ j ∈ range 4, entry 2 4 false exB j 1 * entry 2 4 false exB j 2 = 3 / 10) := by
   refine ⟨ex_run, by decide +kernel, by decide +kernel, by decide +kernel, by decide +kernel, by decide +kernel, by decide +kernel, by decide +kernel⟩
+
+/-- **The result depends on what the vector held on entry** (`B.resize(n*nmodes, 0.0)` zero-fills new cells only and the
+fill loop writes two or three cells per row): same coordinates, a vector pre-filled with `7` — cell `(0,1)`, a zero of the
+y-translation on a fresh vector, keeps the `7`.  (notes/repro_rbm_resize_keeps_content.cpp: same from the `double` code.) -/
+theorem rbm_depends_on_prior_content :
+    ∃ nm B B', rigidBodyModes exSqrt 2 exCoo #[] false = .ok (nm, B) ∧
+      rigidBodyModes exSqrt 2 exCoo (Array.replicate 12 7) false = .ok (nm, B') ∧
+      entry 2 4 false B 0 1 = 0 ∧ entry 2 4 false B' 0 1 = 7 := by
+  refine ⟨3, exB, _, by decide +kernel, rfl, by decide +kernel, by decide +kernel⟩
 
 end Amgcl.C04c
